@@ -8,6 +8,12 @@ class itself (not listed by hand).  A site `R.attr` with `attr` raising and `R` 
   * `R` is narrowed by `isinstance(R, <non-alias class>)`;
   * it is inside a handler / suppress for both error types (or a common base);
   * `R` was replaced by its final target under such a handler on every path (`if R.is_alias: R = R.final_target`);
+  * the site sits in a private helper (leading underscore, never used as a value, every reference is a direct call inside a function) and
+    *every* call site of that helper discharges it: the call is inside a handler for both errors (and the helper's work happens inside it: not a
+    lazily consumed generator), or the whole calling function is itself discharged that way, or - when the receiver is a parameter the helper
+    never re-binds - the argument bound to it is non-alias by one of the rules above at the call site, or is in turn such a parameter of the
+    caller (greatest fixpoint: a recursive call assumes what it proves), or is a parameter of a public entry point that the rule assumes to be a
+    non-alias root (`assume`, keyed by the public function and its parameter name: both are API);
   * the caller tabled it with a reason.
 """
 
@@ -69,7 +75,17 @@ class AliasDeref:
         def skip_parent(_fn, callee, site):
             recv = site.func.value if isinstance(site, ast.Call) and isinstance(site.func, ast.Attribute) else (
                 site.value if isinstance(site, ast.Attribute) else None)
-            return recv is not None and unparse(recv) in ("self.parent", "self._parent") and callee.cls is alias
+            if recv is None or callee.cls is not alias:
+                return False
+            text = unparse(recv)
+            if isinstance(recv, ast.Name):
+                # a local bound once, to the parent link: `parent = self.parent`
+                stores = [s_ for s_ in ast.walk(_fn.node) if isinstance(s_, (ast.Assign, ast.AnnAssign)) and any(
+                    isinstance(t, ast.Name) and t.id == recv.id for t in (s_.targets if isinstance(s_, ast.Assign) else [s_.target]))]
+                others = [x for x in ast.walk(_fn.node) if isinstance(x, ast.Name) and x.id == recv.id and isinstance(x.ctx, ast.Store)]
+                if len(stores) == 1 and len(others) == 1 and stores[0].value is not None and recv.id not in _fn.params:
+                    text = unparse(stores[0].value)
+            return text in ("self.parent", "self._parent")
 
         self.ef = ExcFlow(prog, cg, None, skip_callee=skip_parent)
         roots = [f for c in prog.mro(alias) for defs in c.methods.values() for f in defs]
@@ -95,7 +111,120 @@ class AliasDeref:
     def alias_facts(self, fn: FunctionInfo, node: ast.AST) -> set[tuple[str, bool]]:
         return self.ef._alias_facts(fn, node)
 
-    def scan(self, fns: list[FunctionInfo], tabled: dict[tuple[str, str], str], *, object_may_be_alias: bool = False) -> list[Site]:
+    # ------------------------------------------------------------------ interprocedural discharge through private helpers
+    def _ref_index(self) -> dict[str, list[ast.AST]]:
+        idx = self.__dict__.get("_refs")
+        if idx is None:
+            idx = self.__dict__["_refs"] = {}
+            for mod in self.prog.modules.values():
+                for n in ast.walk(mod.tree):
+                    if isinstance(n, ast.Name) and isinstance(n.ctx, ast.Load) and n.id.startswith("_"):
+                        idx.setdefault(n.id, []).append(n)
+                    elif isinstance(n, ast.Attribute) and n.attr.startswith("_"):
+                        idx.setdefault(n.attr, []).append(n)
+        return idx
+
+    def call_sites(self, f: FunctionInfo) -> list[tuple[FunctionInfo, ast.Call]] | None:
+        """Every call site of a private helper (by name, over the whole program: a superset), or None when callers cannot all be seen."""
+        from sa.srcmodel import parent
+
+        if not f.name.startswith("_") or (f.name.startswith("__") and f.name.endswith("__")) or f.is_property or f.is_setter or f.outer is not None:
+            return None
+        if any(d.split(".")[-1] not in ("staticmethod", "classmethod", "cache", "lru_cache") for d in f.decorators):
+            return None
+        out: list[tuple[FunctionInfo, ast.Call]] = []
+        for n in self._ref_index().get(f.name, []):
+            par = parent(n)
+            if not (isinstance(par, ast.Call) and par.func is n):
+                return None  # used as a value (stored, passed, compared): callers unknown
+            g = self.prog.fn_containing(n)
+            if g is None:
+                return None  # called while a module or class body runs
+            out.append((g, par))
+        return out or None
+
+    @staticmethod
+    def _bind(f: FunctionInfo, call: ast.Call) -> dict[str, ast.AST] | None:
+        if any(isinstance(a, ast.Starred) for a in call.args) or any(k.arg is None for k in call.keywords):
+            return None
+        a = f.node.args
+        pos = [x.arg for x in (*a.posonlyargs, *a.args)]
+        if f.cls is not None and "staticmethod" not in [d.split(".")[-1] for d in f.decorators] and isinstance(call.func, ast.Attribute):
+            pos = pos[1:]
+        if len(call.args) > len(pos) and a.vararg is None:
+            return None
+        bound: dict[str, ast.AST] = dict(zip(pos, call.args))
+        for k in call.keywords:
+            bound[k.arg] = k.value
+        return bound
+
+    @staticmethod
+    def _rebinds(f: FunctionInfo, name: str) -> bool:
+        return any(isinstance(n, ast.Name) and n.id == name and isinstance(n.ctx, (ast.Store, ast.Del)) for n in ast.walk(f.node))
+
+    def _consumed_in_place(self, call: ast.Call) -> bool:
+        from sa.srcmodel import parent
+
+        par = parent(call)
+        return isinstance(par, ast.YieldFrom) or (isinstance(par, (ast.For, ast.comprehension)) and par.iter is call) or (
+            isinstance(par, ast.Call) and dotted(par.func) in ("list", "tuple", "set", "sorted", "dict", "any", "all") and call in par.args)
+
+    def arg_not_alias(self, g: FunctionInfo, call: ast.Call, a: ast.AST, object_may_be_alias: bool, stack: tuple) -> str | None:
+        types = self.cg.type_of(g, a)
+        if types and self.alias not in types and not (object_may_be_alias and any(t.name == "Object" for t in types)):
+            return f"`{unparse(a)}` is a {'/'.join(sorted(t.name for t in types))}"
+        atext = unparse(a)
+        from sa.rules.C12 import _short_circuit_facts
+
+        facts = set(self.alias_facts(g, call))
+        facts |= {(unparse(x.value), t) for x, t in _short_circuit_facts(call) if isinstance(x, ast.Attribute) and x.attr == "is_alias"}
+        if (atext, False) in facts:
+            return f"the call is dominated by `not {atext}.is_alias`"
+        if isinstance_narrowed(g, call, atext):
+            return f"`{atext}` is narrowed by isinstance to a non-alias class"
+        if isinstance(a, ast.Name) and a.id in g.params and not self._rebinds(g, a.id):
+            why = self.caller_discharges(g, a.id, object_may_be_alias=object_may_be_alias, stack=stack)
+            if why is not None:
+                return f"`{atext}` is a parameter of {g.name}: {why}"
+        return None
+
+    def caller_discharges(self, f: FunctionInfo, param: str | None, *, object_may_be_alias: bool = False, stack: tuple = ()) -> str | None:
+        """Why a dereference in `f` (of its parameter `param`, or of anything when None) cannot raise an alias error that escapes, seen from every caller."""
+        key = (f.qualname, param)
+        assume = self.__dict__.get("assume", {})
+        if key in assume:
+            return f"assumed: {assume[key]}"
+        if key in stack:
+            return "recursive call (assumes what is being shown)"
+        if len(stack) > 8:
+            return None
+        sites = self.call_sites(f)
+        if not sites:
+            return None
+        reasons: list[str] = []
+        for g, c in sites:
+            if catches_both(enclosing_catch(c)) and (not f.is_generator or self._consumed_in_place(c)):
+                reasons.append(f"{g.name}: the call is inside a handler for both alias errors")
+                continue
+            why = self.caller_discharges(g, None, object_may_be_alias=object_may_be_alias, stack=(*stack, key)) if (g.qualname, None) != key else None
+            if why is not None:
+                reasons.append(f"{g.name}: {why}")
+                continue
+            if param is None:
+                return None
+            bound = self._bind(f, c)
+            a = bound.get(param) if bound is not None else None
+            if a is None:
+                return None
+            why = self.arg_not_alias(g, c, a, object_may_be_alias, (*stack, key))
+            if why is None:
+                return None
+            reasons.append(f"{g.name}: {why}")
+        return f"every call site of {f.name} discharges it ({'; '.join(dict.fromkeys(reasons))})"
+
+    def scan(self, fns: list[FunctionInfo], tabled: dict[tuple[str, str], str], *, object_may_be_alias: bool = False,
+             assume: dict[tuple[str, str | None], str] | None = None) -> list[Site]:
+        self.assume = dict(assume or {})
         out: list[Site] = []
         for f in fns:
             for n in walk_no_nested(f.node):
@@ -134,6 +263,11 @@ class AliasDeref:
                         continue
                 if dealiased(f, n, rtext):
                     out.append(Site(f, n, rtext, "dealiased", f"`{rtext}` replaced by its final target under a handler on every path"))
+                    continue
+                par_name = recv.id if isinstance(recv, ast.Name) and recv.id in f.params and not self._rebinds(f, recv.id) else None
+                why = self.caller_discharges(f, par_name, object_may_be_alias=object_may_be_alias)
+                if why is not None:
+                    out.append(Site(f, n, rtext, "caller-guarded", why))
                     continue
                 reason = tabled.get((f.qualname, canon_text(f, n)))  # tables are written with canonical names (see sa.util.canon_names)
                 if reason is not None:
